@@ -64,12 +64,24 @@ def slOp (cxx : Bool) (s : Sline) (tok : String) : Option (Sline × String) :=
         pure (r, slShow "0" r)
       | _ => none
   | 'b' => do
+      -- the count as the `unsigned int` it is (round 3b: the C-width functions; `count_parameters_width`
+      -- proves them equal to the unbounded `backspace` / `delete` in every reachable state)
       let n ← arg.toNat?
-      let r := s.backspace n
+      let r := s.backspaceC (BitVec.ofNat 32 n)
       pure (r.1, slShow (toString r.2) r.1)
   | 'd' => do
       let n ← arg.toNat?
-      let r := s.delete n
+      let r := s.deleteC (BitVec.ofNat 32 n)
+      pure (r.1, slShow (toString r.2) r.1)
+  | 'B' => do
+      -- B<int> / D<int>: the count as an `int` (igris::sline::backspace(int) / del(int); in the C family the
+      -- harness writes the same conversion `(unsigned int)i`)
+      let i ← arg.toInt?
+      let r := s.backspaceI i
+      pure (r.1, slShow (toString r.2) r.1)
+  | 'D' => do
+      let i ← arg.toInt?
+      let r := s.deleteI i
       pure (r.1, slShow (toString r.2) r.1)
   | 'l' => let r := s.left; some (r.1, slShow (toString r.2) r.1)
   | 'r' => let r := s.right; some (r.1, slShow (toString r.2) r.1)
